@@ -9,7 +9,7 @@ func init() {
 			"exactly the coins added to the pay-out list are added to the gauge's distributed total, which is booked together with one filled epoch on every successful distribution; pay-outs are sent from the incentives module to the index-aligned receiver list; upcoming gauges become active at their start time before distribution.",
 		NotCovered:  []string{"sum over epochs ≤ deposit and module balance ≥ remainders over histories", "group gauges / volume splitting", "concentrated no-lock gauges' emission inside CL (C08)"},
 		Assumptions: []string{"bank SendCoinsFromModuleToManyAccounts pays inputs[i] to addrs[i]"},
-		MinObl:      20,
+		MinObl:      24,
 		Run:         runC09,
 	})
 }
